@@ -84,6 +84,10 @@ UNIT = Unit(
         Fn(C_, "inner", impl="CoinMapping", mode="assume"),
         Fn("src/state/applytx.rs", "apply_tx_batch_impl", mode="assume", **ap_batch_impl()),
         Fn(S, "apply_tx_batch", impl="UnsealedState", home="C02", implicit_props=("C09", "C02"), **st_apply_tx_batch()),
+        Fn(S, "apply_tx", impl="UnsealedState", home="C02", implicit_props=("C09", "C02"),
+           requires=[C("pre", "batch_pre(*old(self), seq![*tx])")],
+           ensures=[C("noop", "res is Err ==> *final(self) == *old(self)", "C02"),
+                    C("ok", "res is Ok ==> batch_result(*old(self), seq![*tx], *final(self))", "C02", "C06", note="a single transaction is the batch of length one")]),
         Fn(S, "apply_block", impl="SealedState", home="C06", implicit_props=("C09", "C06", "C16"),
            requires=[C("pre", "chain_ok(self.0) && state_inv(self.0) && spec_builtin_pools(self.0) && pools_ok(self.0.pools@) && builtins_if_present(self.0) && self.0.height.0 < u64::MAX"),
                      C("env", "forall|n: UnsealedState<C>, txx: Seq<Transaction>| next_rel(self.0, n) && txx.to_set() == block.transactions@ ==> #[trigger] batch_env(n, txx)",
